@@ -317,6 +317,46 @@ func c15RunOpt(run *ev.Run, u *uni.U, origins []string, wans, dans []string, war
 	} else if derr != nil && !strings.Contains(derr.Error(), fmt.Sprintf("%d out of %d", wantFail, len(logs))) {
 		run.Report("failure-count", desc(fmt.Sprintf("%d of %d logs failed but the result says %q", wantFail, len(logs), derr.Error())), rep)
 	}
+	// The NEXT polling round of the same Distributor, in which everything is
+	// valid: whatever happened in the judged round, every configured log is
+	// fetched and pushed exactly once again (a failure is for that round and
+	// that log only).
+	for _, l := range logs {
+		l.wans, l.dans, l.cp = "valid", "200", l.valid
+	}
+	tr.puts, tr.all = nil, nil
+	nerr := d.DistributeOnce(context.Background())
+	run.Add("following_valid_rounds", 1)
+	if nerr != nil {
+		run.Report("next-round-failed after="+failShape(wans, dans), desc(fmt.Sprintf("the following round, in which every log is valid and the distributor answers 200, failed: %v", nerr)), rep)
+	}
+	for i, l := range logs {
+		n := 0
+		exact := true
+		for _, p := range tr.puts {
+			if strings.Contains(p.Path, "/logs/"+l.cfg.ID+"/") {
+				n++
+				exact = exact && bytes.Equal(p.Body, l.valid)
+			}
+		}
+		if n != 1 || !exact {
+			run.Report(fmt.Sprintf("next-round put-count=%d exact=%v position=%s after=%s", n, exact, posKind(i, len(logs)), failShape(wans, dans)), desc(fmt.Sprintf("in the following all-valid round log %d got %d PUTs (bodies exact: %v), want exactly 1", i, n, exact)), rep)
+			break
+		}
+	}
+}
+
+// failShape abstracts which positions failed in the judged round.
+func failShape(wans, dans []string) string {
+	var sb strings.Builder
+	for i := range wans {
+		if strings.HasPrefix(wans[i], "valid") && (dans[i] == "200" || dans[i] == "200-after-body-unread" || dans[i] == "redirect-307") {
+			sb.WriteByte('.')
+		} else {
+			sb.WriteByte('F')
+		}
+	}
+	return sb.String()
 }
 
 func posKind(i, n int) string {
@@ -421,6 +461,11 @@ func c15(tier string) int {
 					if !strings.HasPrefix(w, "valid") && w != "two-witness-sigs" && d != "200" {
 						continue
 					}
+					// The two unusual valid shapes: with the accepting, one
+					// refusing and the body-unread distributor answer only.
+					if w != "valid" && strings.HasPrefix(w, "valid") && d != "200" && d != "500" && d != "200-after-body-unread" {
+						continue
+					}
 					rec(i+1, dev+1, append(wans, w), append(dans, d))
 				}
 			}
@@ -434,7 +479,7 @@ func c15(tier string) int {
 	run.Set("exhaustive", true)
 	run.Set("witness_answer_menu", c15WitnessAnswers)
 	run.Set("distributor_answer_menu", c15DistAnswers)
-	run.Set("rule", fmt.Sprintf("the real Distributor.DistributeOnce with a scripted witness and an in-process stub distributor (RoundTripper): ALL assignments of (witness answer x distributor answer) for 1 and 2 logs, each also as the second polling round of a Distributor whose first round was entirely valid; for 3..6 logs all assignments with at most %d logs (1-2 for 5-6 logs) deviating from (valid, 200) at every position. Oracle: exactly one PUT per log whose witness answer is valid, at /distributor/v0/logs/<id>/byWitness/<witness key name>/checkpoint, body byte-identical to what the witness reported; no PUT for any other log; every log attempted regardless of earlier failures; error iff some log failed, with the right count. distinct_nontrivial = distinct assignments", k))
+	run.Set("rule", fmt.Sprintf("the real Distributor.DistributeOnce with a scripted witness and an in-process stub distributor (RoundTripper): ALL assignments of (witness answer x distributor answer) for 1 and 2 logs, each also as the second polling round of a Distributor whose first round was entirely valid; for 3..6 logs all assignments with at most %d logs (1-2 for 5-6 logs) deviating from (valid, 200) at every position. Oracle: exactly one PUT per log whose witness answer is valid, at /distributor/v0/logs/<id>/byWitness/<witness key name>/checkpoint, body byte-identical to what the witness reported; no PUT for any other log; every log attempted regardless of earlier failures; error iff some log failed, with the right count; then one more round on the same Distributor in which everything is valid: every log pushed exactly once, exact bytes, no error. The two unusual valid shapes (70 KiB of extension lines; unknown signature lines around the witness line) are combined with distributor answers 200, 500 and body-left-unread only. distinct_nontrivial = distinct assignments", k))
 	run.Assumption("a checkpoint carrying a second, foreign witness signature is outside the property's claim and is not judged; a connection error is modelled as failing before the request body is read")
 	return run.Finish()
 }
